@@ -37,7 +37,7 @@ def handle (line : String) : String :=
     | "aesenc" | "aesdec" | "sha256" | "sha1" => handlePrim cmd args
     | "engine" => handleEngine args
     | "cia-open" | "cia-ops" => handleCia cmd args
-    | "ncch-open" | "ncch-ops" => handleNcch cmd args
+    | "ncch-open" | "ncch-geom" | "ncch-ops" => handleNcch cmd args
     | "sd-iv" | "sd-key" => handleSd cmd args
     | "cci-parse" | "cdn-select" => handleCci cmd args
     | "romfs-parse" | "romfs-lookup" | "romfs-rep" => handleRomfs cmd args
